@@ -463,9 +463,45 @@ def eval_case(case: Dict[str, Any], per_pass: bool) -> Dict[str, Any]:
                         diff = f"after pass {name}: {bad}"
                     break
                 prev = m_k
+    if diff is None and per_pass and res["changed"]:
+        # thorough tier: every rotation / reversal of every iteration of the optimizer's set()-built collections
+        # (deviation bound 1) must produce the same optimised graph
+        so = _set_order_variants(model, d1)
+        if so:
+            diff = so
+            res["guilty_pass"] = "set-iteration-order"
     if diff is not None:
         res["diff"] = diff
     return res
+
+
+def _set_order_variants(model, expected_digest: str) -> Optional[str]:
+    import jax2onnx.converter.ir_optimizations as opt
+    from checks import c14
+    had = "set" in vars(opt)
+    old = vars(opt).get("set")
+    opt.set = c14._make_controlled_set()
+    try:
+        def body(ch: Chooser):
+            c14._Ctl.chooser = ch
+            try:
+                return G.model_digest(G.optimize(model))
+            finally:
+                c14._Ctl.chooser = None
+        for ex in explore(body, bound=1, max_executions=16):
+            if ex.result != expected_digest:
+                return f"iteration order {ex.vector} of a set()-built collection changes the optimised graph"
+    except Exception as e:  # noqa: BLE001
+        return None
+    finally:
+        if had:
+            opt.set = old
+        else:
+            try:
+                del opt.set
+            except Exception:
+                pass
+    return None
 
 
 # --------------------------------------------------------------------------
@@ -517,6 +553,59 @@ def job_subtree(p: Dict[str, Any]) -> Dict[str, Any]:
             out["viol"].append({"text": case["text"], "vector": ex.vector, "diff": r["diff"],
                                 "pass": r.get("guilty_pass")})
     out["transitions"] = stats.transitions
+    return out
+
+
+def job_corpus(p: Dict[str, Any]) -> Dict[str, Any]:
+    """A graph the lowering really produces: export with the optimizer switched off (empty pass table), then run the
+    real pipeline pass by pass on it and compare every changed stage with the unoptimised model in ORT."""
+    import jax2onnx.converter.ir_optimizations as opt
+    from mc import corpus
+    from checks import c11
+    passes = getattr(opt, "_OPTIMIZER_PASSES", None)
+    if not isinstance(passes, tuple):
+        return {"status": "seam_missing"}
+    tp = corpus.get(p["pid"])
+    try:
+        fn = corpus.instantiate(tp)
+        if not corpus.random_free(fn, corpus.input_meta(tp)[1], tp):
+            return {"status": "skip"}
+        opt._OPTIMIZER_PASSES = ()
+        try:
+            raw = corpus.export(tp, fn)
+        finally:
+            opt._OPTIMIZER_PASSES = passes
+    except Exception as e:  # noqa: BLE001
+        return {"status": "skip", "msg": f"{type(e).__name__}"}
+    try:
+        feeds = c11._feeds(tp, raw)
+    except Exception:
+        return {"status": "skip"}
+    s0, base = G.ort_run(raw, feeds)
+    if s0 != "ok":
+        return {"status": "raw_unrunnable"}
+    steps = G.optimize_stepwise(raw)
+    if steps is None:
+        return {"status": "seam_missing"}
+    out = {"status": "ok", "changed_passes": 0, "digests": [G.model_digest(raw)[:12]]}
+    prev = G.model_digest(raw)
+    for name, m_k in steps:
+        d = G.model_digest(m_k)
+        if d == prev:
+            continue
+        prev = d
+        out["changed_passes"] += 1
+        out["digests"].append(d[:12])
+        s1, res = G.ort_run(m_k, feeds)
+        if s1 != "ok":
+            out["diff"] = f"after pass {name}: model {s1}: {str(res)[:150]}"
+            out["pass"] = name
+            break
+        bad = G.same_arrays(base, res)
+        if bad:
+            out["diff"] = f"after pass {name}: {bad}"
+            out["pass"] = name
+            break
     return out
 
 
@@ -581,11 +670,45 @@ def main(tier: str) -> int:
                               {"kind": "gspace", "fam": p["fam"], "rank": p["rank"], "N": p["N"], "tier": tier,
                                "vector": v["vector"], "graph": v["text"]})
     run.cov["families"] = fam_stats
+    # graphs the lowering really produces: corpus exports taken before optimisation, pass by pass
+    import hashlib
+    with Pool(init=("mc.runners", "warm_export"), job_timeout=300) as pool:
+        pids = pool.map("mc.corpus", "pids_job", [tier])[0]
+        if tier == "quick":
+            sd = seed()
+            pids = [q for q in pids if (int(hashlib.sha256(q.encode()).hexdigest()[:6], 16) + sd) % 4 == 0]
+            run.cap("quick: a seed-rotated quarter of the corpus is pushed through the pipeline pass by pass (all in thorough)")
+        cstats = {"corpus_programs": 0, "corpus_pass_applications_changing_graph": 0}
+        for _i, p, r in pool.imap("checks.c02", "job_corpus", [{"pid": q} for q in pids]):
+            if is_worker_failure(r):
+                run.harness_error(f"corpus {p['pid']}: {r.get('_worker')} {r.get('msg', '')[:120]}")
+                continue
+            if r.get("status") == "seam_missing":
+                run.cap("optimizer pass table seam missing: corpus pass-by-pass part skipped")
+                break
+            if r.get("status") != "ok":
+                continue
+            cstats["corpus_programs"] += 1
+            cstats["corpus_pass_applications_changing_graph"] += r["changed_passes"]
+            run.add("evaluations")
+            run.add("traces_validated_against_impl")
+            run.add("transitions", r["changed_passes"])
+            run.add("distinct_nontrivial", 1 if r["changed_passes"] else 0)
+            for dg in r["digests"]:
+                run.state(dg)
+            if r.get("diff"):
+                run.violation(f"corpus|{p['pid']}|{r.get('pass')}", r["diff"], {"kind": "corpus", "pid": p["pid"]})
+        run.cov.update(cstats)
     run._nontrivial = set()  # counted numerically above
     return run.finish()
 
 
 def replay(rep: Dict[str, Any]) -> Dict[str, Any]:
+    if rep.get("kind") == "corpus":
+        from mc import runners
+        runners.warm_export()
+        r = job_corpus({"pid": rep["pid"]})
+        return {"violation": bool(r.get("diff")), "observed": r}
     ch = Chooser(rep["vector"])
     case = build_case(ch, rep["fam"], rep["rank"], rep["N"], rep["tier"])
     r = eval_case(case, True)
